@@ -316,7 +316,39 @@ impl<'a> Model<'a> {
                 self.language,
             );
             if formula != formula_displaced {
+                // Rewriting the formula must not change what kind of cell this is
+                let old_cell = self.workbook.worksheet(sheet)?.cell(row, column).cloned();
+                if let Some(Cell::ArrayFormula {
+                    kind: ArrayKind::Dynamic,
+                    r: (width, height),
+                    ..
+                }) = old_cell
+                {
+                    // the spill is recomputed by the next evaluation: clear the old one
+                    let worksheet = self.workbook.worksheet_mut(sheet)?;
+                    for r in row..row + height {
+                        for c in column..column + width {
+                            if matches!(worksheet.cell(r, c), Some(Cell::SpillCell { a, .. }) if *a == (row, column))
+                            {
+                                worksheet.cell_clear_contents(r, c)?;
+                            }
+                        }
+                    }
+                }
                 self.update_cell_with_formula(sheet, row, column, format!("={formula_displaced}"))?;
+                if let Some(Cell::ArrayFormula {
+                    kind: ArrayKind::Cse,
+                    r,
+                    s,
+                    ..
+                }) = old_cell
+                {
+                    // still the anchor of the same CSE array
+                    let worksheet = self.workbook.worksheet_mut(sheet)?;
+                    if let Some(f) = worksheet.cell(row, column).and_then(|c| c.get_formula()) {
+                        worksheet.set_cell_with_array_formula(row, column, f, s, r.0, r.1)?;
+                    }
+                }
             };
         }
         Ok(())
